@@ -36,7 +36,63 @@ def if_chain(stmt):
         if len(cur.orelse) == 1 and isinstance(cur.orelse[0], ast.If):
             cur = cur.orelse[0]
             continue
+        break
+    orelse = cur.orelse
+    # guard-clause form: `if a: return X` / `if b: return Y` / `<rest>` is the chain  if a .. elif b .. else <rest>.
+    # Only when every arm collected so far leaves the block (so the following statements run exactly when all tests failed).
+    if not orelse and CURRENT_REPO is not None and all(_leaves(b) for t, b, n in arms):
+        blk, i = _block_of(stmt)
+        if blk is not None:
+            j = i + 1
+            while j < len(blk) and isinstance(blk[j], ast.If) and not blk[j].orelse and _leaves(blk[j].body) and _same_subject(arms[0][0], blk[j].test):
+                more, _ = if_chain_plain(blk[j])
+                arms.extend(more)
+                j += 1
+            if j > i + 1 or (j < len(blk) and len(arms) > 0 and j == i + 1 and False):
+                orelse = blk[j:]
+    return arms, orelse
+
+
+CURRENT_REPO = None
+
+
+def if_chain_plain(stmt):
+    arms = []
+    cur = stmt
+    while True:
+        arms.append((cur.test, cur.body, cur))
+        if len(cur.orelse) == 1 and isinstance(cur.orelse[0], ast.If):
+            cur = cur.orelse[0]
+            continue
         return arms, cur.orelse
+
+
+def _leaves(body):
+    return bool(body) and isinstance(body[-1], (ast.Return, ast.Raise, ast.Continue, ast.Break))
+
+
+def _same_subject(t1, t2):
+    """two tests of one dispatch: they mention a common variable / attribute (a == 'x' ... a == 'y'; isinstance(o, A) ... isinstance(o, B))"""
+    def subj(t):
+        return {ast.unparse(x) for x in ast.walk(t) if isinstance(x, (ast.Name, ast.Attribute)) and not (isinstance(x, ast.Name) and x.id in ('isinstance', 'len', 'DiffOp', 'str', 'list', 'dict'))}
+    return bool(subj(t1) & subj(t2))
+
+
+def _block_of(stmt):
+    p = CURRENT_REPO.parent(stmt) if CURRENT_REPO is not None else None
+    if p is None:
+        return None, None
+    for field in ('body', 'orelse', 'finalbody'):
+        blk = getattr(p, field, None)
+        if isinstance(blk, list):
+            for i, s in enumerate(blk):
+                if s is stmt:
+                    return blk, i
+    for h in getattr(p, 'handlers', []) or []:
+        for i, s in enumerate(h.body):
+            if s is stmt:
+                return h.body, i
+    return None, None
 
 
 def ends_abruptly(body):
@@ -70,6 +126,11 @@ def local_defs(func):
             if kind == 'assign' and isinstance(v, (ast.Tuple, ast.List)) and len(v.elts) == len(t.elts):
                 for te, ve in zip(t.elts, v.elts):
                     add(te, ve, 'assign', st)
+            elif kind == 'for' and isinstance(v, (ast.Tuple, ast.List)) and v.elts and \
+                    all(isinstance(e, (ast.Tuple, ast.List)) and len(e.elts) == len(t.elts) for e in v.elts):
+                # for a, b in ((x1, y1), (x2, y2)): a ranges over (x1, x2), b over (y1, y2) -- position-wise, not "everything flows everywhere"
+                for i, te in enumerate(t.elts):
+                    add(te, ast.copy_location(ast.Tuple(elts=[e.elts[i] for e in v.elts], ctx=ast.Load()), v), 'for', st)
             else:
                 for te in t.elts:
                     add(te, v, 'unpack' if kind == 'assign' else kind, st)
@@ -193,6 +254,8 @@ def truth_under(test, pol, pred):
     truthy (True), known falsy (False), or unknown (None)?"""
     if pred(test):
         return pol
+    if isinstance(test, ast.Call) and isinstance(test.func, ast.Name) and test.func.id == 'bool' and len(test.args) == 1 and not test.keywords:
+        return truth_under(test.args[0], pol, pred)         # bool(x) has the truth value of x
     if isinstance(test, ast.UnaryOp) and isinstance(test.op, ast.Not):
         r = truth_under(test.operand, not pol, pred)
         return r
@@ -218,6 +281,8 @@ def tv_eval(e, atom, defs=None):
         ds = defs.get(e.id, [])
         if len(ds) == 1 and ds[0][1] == 'assign':
             return tv_eval(ds[0][0], atom, None)
+    if isinstance(e, ast.Call) and isinstance(e.func, ast.Name) and e.func.id == 'bool' and len(e.args) == 1 and not e.keywords:
+        return tv_eval(e.args[0], atom, defs)
     if isinstance(e, ast.BoolOp):
         vals = [tv_eval(v, atom, defs) for v in e.values]
         if isinstance(e.op, ast.And):
